@@ -286,10 +286,11 @@ func (c c09Ctx) Err() error {
 }
 
 type c09Ext struct {
-	id   int
-	tx   int
-	done chan string
-	stop context.CancelFunc
+	id        int
+	tx        int
+	done      chan string
+	stop      context.CancelFunc
+	abandoned bool
 }
 
 func c09Exec(t *testing.T, rng *vrng, transport string, plan []string) (c09In, c09Obs) {
@@ -633,6 +634,27 @@ func c09Exec(t *testing.T, rng *vrng, transport string, plan []string) (c09In, c
 			if hs, nb := startRound(conf); hs != nil {
 				finishRound(conf, hs, nb, classOf)
 			}
+		case p == "abandon":
+			// a party stops waiting (its context ends) before its transaction is resolved; its
+			// channel stays in the row and the later delivery must not be held up by it
+			var cand []*c09Ext
+			for _, e := range exts {
+				if e.id >= 0 && e.stop != nil && !e.abandoned && len(e.done) == 0 && rowLen(e.tx) > 0 {
+					cand = append(cand, e)
+				}
+			}
+			if len(cand) == 0 {
+				continue
+			}
+			e := cand[rng.intn(len(cand))]
+			e.abandoned = true
+			e.stop()
+			select {
+			case v := <-e.done:
+				e.done <- v
+			case <-time.After(time.Second):
+			}
+			in.Steps = append(in.Steps, c09Step{T: "abandon", W: e.id})
 		case p == "cancel-ok" || p == "cancel-fail":
 			// CancelTx on a transaction the client still tracks; the chain node accepts or rejects
 			// the replacement.  Accepted: the replacement is a transaction the node sent (same
@@ -905,6 +927,9 @@ func TestVerifC09(t *testing.T) {
 		{"send", "watch", "round", "send", "close-racing-watch", "watch"},
 		{"bigsend", "watch", "watch", "round-all", "watch", "round-all", "close"},
 		{"send", "send", "watch", "round-watch-during-delivery", "close"},
+		{"send", "watch", "watch", "abandon", "watch", "round-all", "watch", "close"},
+		{"send", "send", "watch", "watch", "abandon", "close"},
+		{"send", "watch", "abandon", "watch", "round-watch-inflight", "round-all", "close"},
 		{"send", "watch", "round-watch-during-delivery", "round-all", "watch", "close"},
 		{"send", "send", "cancel-fail", "watch", "round-all", "close"},
 		{"send", "cancel-ok", "watch", "cancel-fail", "round-all", "round-all", "close"},
@@ -933,7 +958,7 @@ func TestVerifC09(t *testing.T) {
 		}
 	}
 	acts := []string{"send", "send", "watch", "watch", "round", "round", "round-all", "round-watch-inflight", "round-close-inflight", "close", "close-racing-watch",
-		"round-watch-during-delivery", "cancel-ok", "cancel-fail"}
+		"round-watch-during-delivery", "cancel-ok", "cancel-fail", "abandon"}
 	for i := 0; i < vcount(60, 1200); i++ {
 		var plan []string
 		n := 3 + rng.intn(vcount(10, 24))
